@@ -68,6 +68,9 @@ func GetLengthLimitedID(fixedPrefix, suffix string, maxLength int) string {
 			log.Panicf("GetLengthLimitedID: maxLength %d is too small for prefix %q (length %d); "+
 				"need at least %d", maxLength, fixedPrefix, prefixLen, prefixLen+2)
 		}
+		// With a large maxLength (e.g. nftables chain names) there can be room for more
+		// characters than the hash has; use the whole hash in that case.
+		charsLeftForHash = min(charsLeftForHash, len(hash))
 		return fixedPrefix + shortenedPrefix + hash[0:charsLeftForHash]
 	}
 	// No need to shorten.
